@@ -259,6 +259,10 @@ class RecordingGenerator:
 CURRENT_LOG = [None]
 
 
+class StopReplay(Exception):
+    """the block of interest has been replayed; the rest of the scenario is not needed"""
+
+
 class ReplayDiverged(Exception):
     """the concrete run asked the scripted environment for something the symbolic path did not"""
 
